@@ -11,14 +11,16 @@
                                           resolve_type_in_context
      src/backend/interpreter/managers/types/interfaces.cpp
                                           find_impl_for_struct: exact match among the registered impls, else the
-                                          type arguments cut out of the struct type name (std::getline at every
-                                          ','), the generic impl with that base name and that many parameters,
+                                          type arguments cut out of the struct type name (at the top-level commas
+                                          only, with a bracket depth counter; repair d6bac56), the generic impl
+                                          with that base name and that many parameters,
                                           type_map[param] = argument, the new instance appended to impl_definitions_
      src/backend/interpreter/evaluator/functions/call_impl.cpp (evaluate_function_call_impl, method-call path)
                                           receiver struct type name contains '<'  ->  find_impl_for_struct;
                                           generic instance -> push_type_context(impl_def->get_type_context());
-                                          body; pop on the three exits (normal end, ReturnException, async);
-                                          any other exception (a run-time error) leaves WITHOUT popping.
+                                          body; the TypeContextGuard declared next to type_context_pushed pops
+                                          on EVERY exit of the call (normal end, ReturnException, async, and any
+                                          other exception = a run-time error; repair 70336ad).
 
    A method body is abstracted to the statements that read or change the type context: an observation of a type
    name (sizeof(ty), new ty: everything that goes through resolve_type_in_context), the declaration of a
@@ -131,6 +133,7 @@ Inductive act : Type :=
                                 (declaration.cpp: var.struct_type_name = node->type_name; only a pointer to a generic
                                 struct goes through resolve_type_in_context) *)
 | ACall (v m : str)          (* v.m(n - 1, ...) on a parameter, a local or self *)
+| ATry (v m : str)           (* Result<..> r = try v.m(n - 1, ...): a run-time error of the callee is caught, the caller goes on *)
 | AFn (g : str)              (* g(n - 1, ...): a plain function, or an instance of a generic function (its body is
                                 the substituted copy Model.instantiate builds): nothing is pushed or popped, the
                                 body runs under whatever context is on the stack *)
@@ -151,14 +154,10 @@ Fixpoint lookup_method (ms : list (str * method)) (m : str) : option method :=
   end.
 
 (* ------------------------------------------------------------------ find_impl_for_struct (interfaces.cpp) *)
-Fixpoint split_commas (s cur : str) : list str :=
-  match s with
-  | [] => [cur]
-  | a :: r => if Ascii.eqb a c_comma then cur :: split_commas r [] else split_commas r (cur ++ [a])
-  end.
-
-(* base name and type arguments cut out of "Base<a, b>": '<' by find, '>' by rfind, std::getline at EVERY ','
-   (no bracket depth), each piece trimmed of blanks and tabs, all-blank pieces dropped *)
+(* base name and type arguments cut out of "Base<a, b>": '<' by find, '>' by rfind, then a character loop with
+   an int bracket depth ('<' ++, '>' --, both kept in the argument): a ',' at depth 0 ends an argument; each
+   argument trimmed of blanks and tabs, all-blank arguments dropped.  This is the loop of
+   substitute_generic_type_name: Model.split_params *)
 Definition impl_type_args (s : str) : option (str * list str) :=
   match find_char c_lt s with
   | None => None
@@ -167,7 +166,7 @@ Definition impl_type_args (s : str) : option (str * list str) :=
       | None => Some (firstn lt s, [])
       | Some gt =>
           let a := if gt <? lt then skipn (lt + 1) s else firstn (gt - lt - 1) (skipn (lt + 1) s) in
-          Some (firstn lt s, fold_left push_trimmed (split_commas a []) [])
+          Some (firstn lt s, split_params a 0%Z [] [])
       end
   end.
 
@@ -314,11 +313,29 @@ Fixpoint run (fuel : nat) (P : program) (st : stack) (ic : icache) (env : list (
               | Some (ic1, pushed, md) =>
                   let st1 := match pushed with Some c => push_type_context c st | None => st end in
                   let x := run f P st1 ic1 ((self_name, rty) :: m_params md) (pred n) (m_body md) in
-                  if flag_err (r_flag x) then x        (* the exception passes every pop_type_context *)
+                  (* ~TypeContextGuard: whatever the outcome *)
+                  let st2 := match pushed with Some _ => pop_type_context (r_stack x) | None => r_stack x end in
+                  if flag_err (r_flag x)
+                  then {| r_out := r_out x; r_stack := st2; r_cache := r_cache x; r_flag := FErr |}
                   else
-                    let st2 := match pushed with Some _ => pop_type_context (r_stack x) | None => r_stack x end in
                     let y := run f P st2 (r_cache x) env n r in
                     {| r_out := r_out x ++ r_out y; r_stack := r_stack y; r_cache := r_cache y; r_flag := r_flag y |}
+              end
+          end
+      | ATry v m :: r =>
+          match lookup env v with
+          | None => {| r_out := []; r_stack := st; r_cache := ic; r_flag := FErr |}
+          | Some rty =>
+              match enter P ic rty m with
+              | None =>
+                  (* "Undefined function": a run-time error as well, caught by the try *)
+                  run f P st ic env n r
+              | Some (ic1, pushed, md) =>
+                  let st1 := match pushed with Some c => push_type_context c st | None => st end in
+                  let x := run f P st1 ic1 ((self_name, rty) :: m_params md) (pred n) (m_body md) in
+                  let st2 := match pushed with Some _ => pop_type_context (r_stack x) | None => r_stack x end in
+                  let y := run f P st2 (r_cache x) env n r in
+                  {| r_out := r_out x ++ r_out y; r_stack := r_stack y; r_cache := r_cache y; r_flag := r_flag y |}
               end
           end
       end
@@ -364,10 +381,23 @@ Fixpoint run_mono (fuel : nat) (P : program) (cur : option tctx) (ic : icache) (
               | Some (ic1, pushed, md) =>
                   let cur1 := match pushed with Some c => Some c | None => cur end in
                   let x := run_mono f P cur1 ic1 ((self_name, rty) :: m_params md) (pred n) (m_body md) in
-                  if flag_err (q_flag x) then x
+                  if flag_err (q_flag x) then {| q_out := q_out x; q_cache := q_cache x; q_flag := FErr |}
                   else
                     let y := run_mono f P cur (q_cache x) env n r in
                     {| q_out := q_out x ++ q_out y; q_cache := q_cache y; q_flag := q_flag y |}
+              end
+          end
+      | ATry v m :: r =>
+          match lookup env v with
+          | None => {| q_out := []; q_cache := ic; q_flag := FErr |}
+          | Some rty =>
+              match enter P ic rty m with
+              | None => run_mono f P cur ic env n r
+              | Some (ic1, pushed, md) =>
+                  let cur1 := match pushed with Some c => Some c | None => cur end in
+                  let x := run_mono f P cur1 ic1 ((self_name, rty) :: m_params md) (pred n) (m_body md) in
+                  let y := run_mono f P cur (q_cache x) env n r in
+                  {| q_out := q_out x ++ q_out y; q_cache := q_cache y; q_flag := q_flag y |}
               end
           end
       end
@@ -386,8 +416,7 @@ Fixpoint run_calls (fuel : nat) (P : program) (ic : icache) (calls : list (str *
       x :: run_calls fuel P (r_cache x) r
   end.
 
-(* `try v.m(...)`: the caller catches the callee's run-time error and goes on - with the stack the
-   exception left behind *)
+(* the stack a caller finds after `try v.m(...)`, whatever happened in the callee *)
 Definition stack_after_try (fuel : nat) (P : program) (st : stack) (ic : icache) (env : list (str * str)) (n : nat)
            (v m : str) : stack :=
   r_stack (run fuel P st ic env n [ACall v m]).
